@@ -216,6 +216,18 @@ def valid_templates(tier="quick"):
         T.append(_mk("restat_by_dyndep_bound_in_the_rule/" + mode, [Variant("v0", st)], {"dd" if mode == "existing" else "dd.in": dd6}, ops, [nb],
                      min(depth, 4), [mode, "restat"]))
 
+    # D6c: a dyndep file whose restat binding evaluates to nothing (`restat = $nothing`, `restat = `): as in a manifest, that is
+    # no restat -- although the tool happens to write only on change, its dependents run whenever it ran
+    for vn, val in (("unset_variable", "$nothing"), ("empty", "")):
+        dd6c = "ninja_dyndep_version = 1\nbuild out: dyndep\n  restat = " + val + "\n"
+        o = Stmt("out", ex=["in"], oo=["dd"], dyndep="dd", restat=False)
+        o.tool_restat = True
+        for mode in ("existing", "produced"):
+            st = ([Stmt("dd", ex=["dd.in"], copy=True)] if mode == "produced" else []) + [o, Stmt("after", ex=["out"])]
+            ops, nb = common_ops([{"op": "touch", "path": "in", "label": "touch in"}])
+            T.append(_mk("restat_binding_evaluates_to_nothing/%s/%s" % (vn, mode), [Variant("v0", st)],
+                         {"dd" if mode == "existing" else "dd.in": dd6c}, ops, [nb], min(depth, 4), [mode, "restat"]))
+
     # D1p: the dyndep file spells the input it adds the way generated files do
     for spn, sp in (("dot", "./x"), ("dotdot", "zz/../x")):
         dsp = dyndep_text([("out", [], [sp], False)])
